@@ -344,6 +344,9 @@ Definition get_message_code : list dstmt :=
 (* driver/netconf/rpc.go Driver.sendRPC (the polling goroutine as one effect) *)
 Definition send_rpc_code : list dstmt :=
   [DIf (DAtom "d.ForceSelfClosingTags") [] []; DCall "m.serialize(d.SelectedVersion, d.ForceSelfClosingTags, d.ExcludeHeader)"; DIf (DNot (DEq "err" "nil")) [DReturn "nil, err"] []; DAssign "r" "response.NewNetconfResponse( serialized.rawXML, serialized.framedXML, d.Transport.GetHost(), d.Transport.GetPort(), d.SelectedVersion, )"; DAssign "err" "d.Channel.WriteAndReturn(serialized.framedXML, false)"; DIf (DNot (DEq "err" "nil")) [DReturn "nil, err"] []; DIf (DEq "d.SelectedVersion" "V1Dot1") [DAssign "err" "d.Channel.WriteReturn()"; DIf (DNot (DEq "err" "nil")) [DReturn "nil, err"] []] []; DAssign "done" "make(chan []byte)"; DCall "context.WithCancel(context.Background()) -> ctx, cancel"; DCall "defer cancel()"; DCall "go func() { defer close(done) var data []byte for { if ctx.Err() != nil { return } data = d.getMessage(m.MessageID) if data != nil { break } time.Sleep(5 * time.Microsecond) } select { case done <- data: case <-ctx.Done(): } }()"; DAssign "timer" "time.NewTimer(d.Channel.GetTimeout(op.Timeout))"; DSwitch "select" [(["err = <-d.errs"], [DReturn "nil, err"]); (["<-timer.C"], [DReturn "nil, fmt.Errorf(""%w: channel timeout sending input to device"", util.ErrTimeoutError)"]); (["data := <-done"], [DCall "r.Record(data)"])]; DReturn "r, nil"].
+(* driver/netconf/read.go Driver.read (the NETCONF read loop) *)
+Definition nc_read_code : list dstmt :=
+  [DRange "_" "forever" [DIf (DAtom "ready <-d.done") [DReturn ""] []; DCall "d.Channel.Read()"; DIf (DNot (DEq "err" "nil")) [DSwitch "select" [(["d.errs <- err"], []); (["<-d.done"], [DReturn ""])]] []; DAssign "b" "append(b, rb...)"; DIf (DAtom "d.Channel.PromptPattern.Match(b)") [DIf (DAtom "bytes.Contains(b, []byte(""</rpc>""))") [DSwitch "d.SelectedVersion" [(["V1Dot0"], [DAssign "ss" "patterns.v1Dot0Delim.Split(string(b), endRPCSplitLen)"]); (["V1Dot1"], [DAssign "ss" "patterns.v1Dot1Delim.Split(string(b), endRPCSplitLen)"])]; DAssign "b" "[]byte(ss[1])"] [DIf (DAtom "d.Channel.PromptPattern.Match(b)") [DAssign "messageID" "zero int"; DAssign "subID" "zero int"; DAssign "messageID" "getID(patterns.messageID.FindSubmatch(b))"; DIf (DAtom "bytes.Contains(b, []byte(""</subscription-id>""))") [DAssign "subID" "getID(patterns.subscriptionID.FindSubmatch(b))"] []; DIf (DNot (DEq "messageID" "0")) [DCall "d.storeMessage(messageID, b)"] []; DIf (DNot (DEq "subID" "0")) [DCall "d.storeSubscriptionMessage(subID, b)"] []; DAssign "b" "nil"] []]] []; DCall "time.Sleep(d.Channel.ReadDelay)"]].
 (* transport/standard.go Standard.openSession, Standard.Close *)
 Definition std_open_session_code : list dstmt :=
   [DCall "ssh.Dial( tcp, fmt.Sprintf(""%s:%d"", a.Host, a.Port), cfg, )"; DIf (DNot (DEq "err" "nil")) [DReturn "err"] []; DCall "t.client.NewSession()"; DIf (DNot (DEq "err" "nil")) [DReturn "err"] []; DCall "t.session.StdinPipe()"; DIf (DNot (DEq "err" "nil")) [DReturn "err"] []; DCall "t.session.StdoutPipe()"; DIf (DNot (DEq "err" "nil")) [DReturn "err"] []; DReturn "nil"].
